@@ -18,7 +18,7 @@ def run(ctx):
     from quantecon._gridtools import (simplex_grid, simplex_index, num_compositions, num_compositions_jit,
                                       cartesian, mlinspace, cartesian_nearest_index, _cartesian_index)
     thorough = ctx.tier == "thorough"
-    ctx.proofs()
+    ctx.proofs(["C16/Props.v", "C16/PropsTie.v"])
 
     # ---------------- comb_jit
     Ns = list(range(0, 71 if thorough else 48))
